@@ -198,6 +198,10 @@ class ExprMixin:
             if ca is not None:
                 return [Ev(st, ca)]
             raise OutOfReach("class attribute %s.%s" % (v.name, name))
+        if hasattr(v, "get_attr"):
+            r = v.get_attr(self, name, st)
+            if r is not None:
+                return r
         # methods of builtin kinds are resolved at call time
         return [Ev(st, FuncV("method", selfv=v, name=name))]
 
@@ -914,6 +918,8 @@ class ExprMixin:
             return [Ev(st, NONE)]
         if isinstance(obj, NoneV):
             return [self.raise_(st, "AttributeError", "NoneType." + name)]
+        if hasattr(obj, "set_attr"):
+            return obj.set_attr(self, name, val, st)
         raise OutOfReach("attribute assignment on %s" % obj.kind)
 
     def contains(self, container, item, st, fx):
